@@ -192,6 +192,9 @@ def rule_r3(rep, program: Program):
     r.inst({"site": "ChainState.copy:_cache", "expr": norm(cache)})
     if cache is not None and filtered_copy_of(cache, "self._cache"):
         pass  # a filtered copy is still an independent dict: transparent (C18-R4 reports the loss)
+    elif isinstance(cache, ast.IfExp) and "self._cache" in (norm(cache.body), norm(cache.orelse)):
+        shared_when = norm(cache.test) if norm(cache.body) == "self._cache" else f"not ({norm(cache.test)})"
+        r.violate(PROP, f"ChainState.copy:_cache=shared-when:{shared_when[:40]}", f"copy() shares the cache dict with the original when `{shared_when}`: an assignment to the original marks the shared entries invalid, the next call on either object refills them from that object's variables, and the other object then reads values computed for different variables", node=call, file=f.file)
     elif cache is not None and norm(cache) == "self._cache":
         r.violate(PROP, "ChainState.copy:_cache=shared", "copy() shares the cache dict with the original: a recomputation after an assignment on one object overwrites / resurrects entries seen by the other", node=call, file=f.file)
     elif cache is not None and not (_is_copy_of(cache, "self._cache") or isinstance(cache, ast.Dict) or norm(cache) in ("None", "dict()")):
@@ -487,8 +490,9 @@ def wrapper_cross_call_state(program: Program):
     return out
 
 
-def rule_r6(rep, program: Program):
-    r = rep.rule("R6", "decorator protocol: cache key identifies class, method and system object; every stored key is registered under every declared dependency; the miss test recognises the invalidation marker", floor=6)
+def rule_r6(rep, program: Program, prop=PROP, rule="R6"):
+    PROP = prop  # noqa: N806
+    r = rep.rule(rule, "decorator protocol: cache key identifies class, method and system object; every stored key is registered under every declared dependency; the miss test recognises the invalidation marker", floor=6)
     kf = program.func("states", "_cache_key_func")
     rets = [n for n in ast.walk(kf.node) if isinstance(n, ast.Return)]
     v = rets[-1].value if rets else None
@@ -1031,14 +1035,14 @@ def run(rep, program: Program, tier: str) -> None:
     f = k.methods["stale"]
     eff = cse.effects(k, f, "state")
     r1.positive_control = bool(set(eff.reads) - set(f.cache_deps))
-    rule_r2(rep, program, se)
-    rule_r3(rep, program)
-    rule_r4(rep, program)
-    rule_r5(rep, program)
-    rule_r6(rep, program)
-    rule_r7(rep, program)
-    rule_r8(rep, program)
-    rule_r9(rep, program)
-    rule_r10(rep, program)
+    rep.isolate(rule_r2, rep, program, se)
+    rep.isolate(rule_r3, rep, program)
+    rep.isolate(rule_r4, rep, program)
+    rep.isolate(rule_r5, rep, program)
+    rep.isolate(rule_r6, rep, program)
+    rep.isolate(rule_r7, rep, program)
+    rep.isolate(rule_r8, rep, program)
+    rep.isolate(rule_r9, rep, program)
+    rep.isolate(rule_r10, rep, program)
     rep.extra["callsites_resolved"] = se.resolved_calls
     rep.extra["callsites_unresolved"] = len(se.unresolved)
